@@ -11,8 +11,8 @@ import (
 	"iocvet/internal/core"
 )
 
-// seam resolves invokes through internal seams (set once the program is loaded).
-var seam func(*ssa.CallCommon) *ssa.Function
+// seam resolves invokes through internal seams.
+var seam = core.Seam
 
 // reachesCall: fn reaches a call matching pred through static callees of its own package, function literals,
 // function / method values it creates (bound-method wrappers included).
